@@ -358,8 +358,7 @@ def gen_run(seed: int, tier: str, sub: str) -> dict:
         cfg['mean_quantum'] = r.choice([40, 150, 600, 2500])
         cfg['starve'] = 0.0
         cfg['opcode'] = False
-        ctxs = r.sample(FLOAT_CTXS, 3) + r.sample(FIXED_CTXS, 2) + r.sample(OTHER_CTXS, 1)
-        ctxs = list(dict.fromkeys(ctxs))
+        ctxs = r.sample(FLOAT_CTXS, 3) + r.sample(FIXED_CTXS, 2)
         order = rot % 4
         if order == 3:
             r.shuffle(ctxs)
@@ -416,7 +415,7 @@ def gen_run(seed: int, tier: str, sub: str) -> dict:
             threads.append(ops)
         return {'seed': seed, 'cfg': cfg, 'threads': threads, 'schedule': None, 'sched_seed': r.randrange(1 << 62)}
     elif shape == 'boundary':
-        # boundary sweep: four of the functions that take or return containers, every argument tuple of
+        # boundary sweep: three of the functions that take or return containers, every argument tuple of
         # their catalogues (all representations, aliased sub-lists), the callers overwriting what they get
         # back -- what crosses the Python boundary in either direction, systematically rather than sampled
         cfg['nthreads'] = nthreads = r.choice([1, 1, 2])
@@ -424,7 +423,7 @@ def gen_run(seed: int, tier: str, sub: str) -> dict:
         cfg['starve'] = 0.0
         cfg['opcode'] = False
         cfg['scribble'] = True
-        names = rotate(m['BOUNDARY'], rot, 4)
+        names = rotate(m['BOUNDARY'], rot, 3)
         threads = []
         for t in range(nthreads):
             ops = []
